@@ -396,10 +396,14 @@ func c19CLI(w *Worker, c *c19Case, expectFail bool, libOut []byte, bad func(kind
 	// a file type the tool cannot generate (one its help text names, one it does not): either an error
 	// status with the existing file untouched, or a complete file - never "success" with the old file
 	if strings.HasPrefix(c.Origin, "whole:") && c.Variant == gen.Go {
-		for _, ft := range []string{"rust", "golang"} {
+		for _, ft := range []string{"rust", "golang", "--nosuchflag"} {
 			os.WriteFile(outp, []byte(sentinel), 0o644)
 			ctx3, cancel3 := context.WithTimeout(context.Background(), 120*time.Second)
-			cmd3 := evid.Guarded(ctx3, 60, dir, nil, nativeBin, "generate", ft, in, outp)
+			args3 := []string{"generate", ft, in, outp}
+			if strings.HasPrefix(ft, "--") {
+				args3 = []string{"generate", ft, "go", in, outp} // an option the tool does not know
+			}
+			cmd3 := evid.Guarded(ctx3, 60, dir, nil, nativeBin, args3...)
 			err3 := cmd3.Run()
 			cancel3()
 			w.Count("cli_runs_other_file_types", 1)
